@@ -1492,8 +1492,47 @@ def rule_max1_scan(mod_unused, rep, config="pthread"):
             rep.check(trips_ok, "MAX1-SCAN", "%s#trips@%d" % (nm, nloop), "n - 1 iterations for n = 2..9",
                       "the scan loop at %s does not run n - 1 times (iterations for n = 2..9: %s; start %s, step %d, bound %s): components are skipped or read past the end"
                       % (ph.loc, got, pfmt(pi), step, pfmt(pb)), ph.loc, nm)
-            # loads of cx components in the body, index as a polynomial of the induction variable
+            # recorded result: int phis of the header (other than the counter and other cursors) take, inside the body, their own value or counter + c
             t = "v%d" % pid
+            coff = None; rec_bad = None; rec_seen = False
+            for q in f.blocks[ph.bb.id].insts:
+                if q.op != "phi" or q.i == pid or not (q.ty or "").startswith("i"):
+                    continue
+                leaves = []
+                work = [o for o, bb in zip(q.ops, q.inb) if bb in body]; seen = set()
+                while work:
+                    o = strip_casts(f, work.pop())
+                    if o[0] == "v" and o[1] in seen:
+                        continue
+                    if o[0] == "v":
+                        seen.add(o[1])
+                        x = f.inst[o[1]]
+                        if x.op == "phi" and x.bb.id in body and x.i not in (q.i, pid):
+                            work.extend(x.ops); continue
+                        if x.op == "select":
+                            work.extend(x.ops[1:]); continue
+                    leaves.append(o)
+                others = [o for o in leaves if not (o[0] == "v" and o[1] == q.i)]
+                # a second cursor (ix += incx) is not a recorded position
+                if any(o[0] == "v" and f.inst[o[1]].op == "add" and any(strip_casts(f, z) == ["v", q.i] for z in f.inst[o[1]].ops) for o in others):
+                    continue
+                for o in others:
+                    rec_seen = True
+                    pr = P.of(o)
+                    if set(pr) <= {(t,), ()} and pr.get((t,), 0) == 1:
+                        c = pr.get((), 0)
+                        if coff is None:
+                            coff = c
+                        elif coff != c:
+                            rec_bad = o
+                    else:
+                        rec_bad = o
+            if rec_seen:
+                rep.check(rec_bad is None, "MAX1-SCAN", "%s#result@%d" % (nm, nloop), "the recorded position is the counter plus a constant (%s)" % coff,
+                          "the position recorded in the loop at %s is not `counter + constant` (one and the same constant at every site): it is not a fixed function of the component "
+                          "just compared" % ph.loc, ph.loc, nm)
+            coff = coff or 0
+            # loads of cx components in the body, index as a polynomial of the induction variable
             idxs = []
             for b in body:
                 for x in f.blocks[b].insts:
@@ -1505,10 +1544,11 @@ def rule_max1_scan(mod_unused, rep, config="pthread"):
             viaI = [(x, p) for x, p in idxs if any(t in k for k in p) and not any(_is_ssa_sym(t2) for k in p for t2 in k if t2 != t)]
             if viaI:
                 def at1(p):
+                    # the index polynomial at the counter value for which the recorded position is 1 (t = 1 - c): must be component 0
                     out = {}
                     for k, v in p.items():
                         k2 = tuple(z for z in k if z != t)
-                        out[k2] = out.get(k2, 0) + v
+                        out[k2] = out.get(k2, 0) + v * ((1 - coff) ** k.count(t))
                     return {k: v for k, v in out.items() if v}
                 badc = [(x, p) for x, p in viaI if at1(p)]
                 rep.check(not badc, "MAX1-SCAN", "%s#component@%d" % (nm, nloop), "the component compared for counter i is component i - 1 (0-based)",
@@ -1542,36 +1582,12 @@ def rule_max1_scan(mod_unused, rep, config="pthread"):
                 for x, pidx in viaC:
                     d = {k: v for k, v in pidx.items() if k != (tq,)}
                     a0 = padd(a_init, d, 1)
-                    want = pmul(sp, pconst(i0 - 1))
+                    want = pmul(sp, pconst(i0 + coff - 1))
                     okc = (padd(a0, want, -1) == {})
                     rep.check(okc, "MAX1-SCAN", "%s#cursor@%d" % (nm, nloop), "the counter is the 1-based position of the component the cursor addresses",
                               "the strided scan at %s compares component %s + k*(%s) in its k-th iteration while the counter, which is recorded as the result, is %d + k: the result "
                               "is not the 1-based position of that component (expected first component index %s)" % (x.loc, pfmt(a0), pfmt(sp), i0, pfmt(want)), x.loc, nm)
                     break
-            # recorded result: int phis of the header (other than the counter) take, inside the body, only the counter or their own value
-            for q in f.blocks[ph.bb.id].insts:
-                if q.op != "phi" or q.i == pid or not (q.ty or "").startswith("i"):
-                    continue
-                leaves = []
-                work = [o for o, bb in zip(q.ops, q.inb) if bb in body]; seen = set()
-                while work:
-                    o = strip_casts(f, work.pop())
-                    if o[0] == "v" and o[1] in seen:
-                        continue
-                    if o[0] == "v":
-                        seen.add(o[1])
-                        x = f.inst[o[1]]
-                        if x.op == "phi" and x.bb.id in body and x.i not in (q.i, pid):
-                            work.extend(x.ops); continue
-                        if x.op == "select":
-                            work.extend(x.ops[1:]); continue
-                    leaves.append(o)
-                bad = [o for o in leaves if not (o[0] == "v" and o[1] in (q.i, pid))]
-                # the strided loop has a second cursor (ix) that advances by incx: not a recorded position
-                if any(o[0] == "v" and f.inst[o[1]].op == "add" and any(strip_casts(f, z) == ["v", q.i] for z in f.inst[o[1]].ops) for o in bad):
-                    continue
-                rep.check(not bad, "MAX1-SCAN", "%s#result@%d/%d" % (nm, nloop, q.i), "the recorded position is the counter itself",
-                          "the position recorded in the loop at %s is not the loop counter (which is the 1-based index of the component just compared)" % ph.loc, ph.loc, nm)
 
 
 # ---------------------------------------------------------------------------------------------------------------------------------
